@@ -483,6 +483,11 @@ var orderTemplates = []struct {
 	want []string
 }{
 	{"x = 1\nfunc bump() {\nx = 100\nreturn probe(5)\n}\nx += bump()\nprobe(x)", []string{"(i 5)", "(i 6)"}},
+	// an operand written twice is evaluated twice: `x ? x : y` evaluates x as the condition and again as the chosen operand
+	{"a = [5]\nr = a[probe(0)] ? a[probe(0)] : 9\nprobe(r)", []string{"(i 0)", "(i 0)", "(i 5)"}},
+	{"m = {\"in\": {\"k\": 3}}\nr = m[probe(\"in\")].k ? m[probe(\"in\")].k : 0\nprobe(r)", []string{"(s 696e)", "(s 696e)", "(i 3)"}},
+	{"a = [0, 7]\nr = a[probe(0)] ? a[probe(0)] : a[probe(1)]\nprobe(r)", []string{"(i 0)", "(i 1)", "(i 7)"}},
+	{"a = [5]\nr = (a[probe(0)]) ? a[probe(0)] : 9\nr2 = a[probe(0)] ?? a[probe(0)]\nprobe([r, r2])", []string{"(i 0)", "(i 0)", "(i 0)", "(l (i 5) (i 5))"}},
 	// a call through a function value that is nil fails as a call: its arguments have been evaluated, once, in order
 	{"try {\nwantsnil(probe(1), probe(2))\n} catch e {\nprobe(-1)\n}", []string{"(i 1)", "(i 2)", "(i -1)"}},
 	{"try {\nwantsnilv(probe(1), probe(2), probe(3))\n} catch e {\nprobe(-1)\n}", []string{"(i 1)", "(i 2)", "(i 3)", "(i -1)"}},
